@@ -39,6 +39,17 @@ fn formats(ctx: &mut Ctx, len: usize) {
     let extra = ["\\t", "\\r", "a\\tb~\\r", "~~~", "\\~~\\~", "é~é", "👍~"];
     let mut all = strings(len);
     all.extend(extra.iter().map(|s| s.to_string()));
+    // every escape letter: all strings of length <= 4 over the alphabet extended by t and r
+    {
+        let wide: Vec<char> = ALPHA.iter().copied().chain(['t', 'r']).collect();
+        let mut frontier = vec![String::new()];
+        for _ in 0..len.min(4) {
+            let mut next = vec![];
+            for s in &frontier { for c in &wide { let mut t = s.clone(); t.push(*c); next.push(t) } }
+            all.extend(next.iter().filter(|t| t.contains('t') || t.contains('r')).cloned());
+            frontier = next;
+        }
+    }
     let mut admitted = 0u64;
     for s in &all {
         if !lexable(s) { ctx.count("fmt_not_lexable", 1); continue }
